@@ -524,3 +524,124 @@ Print Assumptions C04_scan_any_table_no_panic_partial.
 Print Assumptions C04_owned_ops_total_partial.
 Print Assumptions C04_view_tag_total.
 Print Assumptions C04_subkey_check_no_panic_partial.
+
+(* ---- (c') PEAK of the live heap reservations, for EVERY input - also when the parse fails midway (Proofs/AllocPeak.v) ----
+   `idec_tx sz gs` / `idec_block sz gs` are the decoders of Model/Codec.v re-stated in an instrumented cursor monad that
+   threads (live bytes, peak of live bytes): `Vec::with_capacity(len)` after the cap test reserves size_of T * len BEFORE the
+   elements are read (ivec / isized); `vec![]` + push loops and `collect::<Result<Vec<_>,_>>()` grow by std's amortised doubling
+   (igrow / ipush: 4 slots at the first push, then 2 x capacity, old and new buffer live together while re-allocating); nothing
+   else is freed (a parsed value keeps everything); on an error the run stops.  `sz` = size_of of the elements of the capped
+   vectors (Model/Codec.v), `gs` = size_of of the elements of the growing vectors (EcdhInfo 65, Vec<Key> 24, Clsag 88, MgSig 56).
+   `peak_of i s` = the peak reached by `i` on input `s` from an empty heap.
+   C04_alloc_peak_erasure: forgetting the instrumentation gives exactly dec_tx / dec_block.
+   C04_alloc_peak_tx / _block: peak <= 2 * 32 MiB + (4 * (sum of gs) + 384) + rho * |input| for every input, every pair of
+   tables and every rho satisfying the eleven ratio conditions (element size <= rho * minimal wire size; x 4 for growing vectors).
+   The 2 is the nesting depth of capped vectors: Vec<TxIn> > Vec<VarInt>, Vec<Bulletproof(+)> > Vec<Key>; MLSAG matrices are
+   grown (Vec<MgSig> > ss) with one capped Vec<Key> per row, depth 1.
+   C04_alloc_peak_all_tables: `rho_of sz gs` (max of the rounded-up ratios, at least 8) satisfies the conditions: no hypothesis left. *)
+From MRS Require Import Proofs.AllocPeak.
+
+Theorem C04_alloc_peak_erasure : forall sz gs,
+  (forall s m, fst (idec_tx sz gs s m) = dec_tx sz s) /\ (forall s m, fst (idec_block sz gs s m) = dec_block sz s).
+Proof. intros sz gs. split; [exact (er_tx sz gs)|exact (er_block sz gs)]. Qed.
+
+Theorem C04_alloc_peak_tx : forall sz gs rho s,
+  8 <= rho /\ sz_txin sz <= 2 * rho /\ sz_txin sz + 4 * g_row gs <= 35 * rho /\ sz_txout sz <= 34 * rho /\
+  sz_bulletproof sz <= 290 * rho /\ sz_bpplus sz <= 194 * rho /\ sz_rangesig sz <= 6176 * rho /\ 4 * g_ecdh gs <= 8 * rho /\
+  4 * g_clsag gs <= 64 * rho /\ 4 * g_mgsig gs <= 32 * rho /\ 4 * g_row gs + 32 <= 32 * rho ->
+  peak_of (idec_tx sz gs) s <= 2 * (32 * 1024 * 1024) + (4 * (g_ecdh gs + g_row gs + g_clsag gs + g_mgsig gs) + 384) + rho * lenN s.
+Proof. intros sz gs rho s H. exact (peak_tx sz gs rho s H). Qed.
+
+Theorem C04_alloc_peak_block : forall sz gs rho s,
+  8 <= rho /\ sz_txin sz <= 2 * rho /\ sz_txin sz + 4 * g_row gs <= 35 * rho /\ sz_txout sz <= 34 * rho /\
+  sz_bulletproof sz <= 290 * rho /\ sz_bpplus sz <= 194 * rho /\ sz_rangesig sz <= 6176 * rho /\ 4 * g_ecdh gs <= 8 * rho /\
+  4 * g_clsag gs <= 64 * rho /\ 4 * g_mgsig gs <= 32 * rho /\ 4 * g_row gs + 32 <= 32 * rho ->
+  peak_of (idec_block sz gs) s <= 2 * (32 * 1024 * 1024) + (4 * (g_ecdh gs + g_row gs + g_clsag gs + g_mgsig gs) + 384) + rho * lenN s.
+Proof. intros sz gs rho s H. exact (peak_block sz gs rho s H). Qed.
+
+Theorem C04_alloc_peak_all_tables : forall sz gs s,
+  peak_of (idec_tx sz gs) s <= 2 * (32 * 1024 * 1024) + (4 * (g_ecdh gs + g_row gs + g_clsag gs + g_mgsig gs) + 384) + rho_of sz gs * lenN s /\
+  peak_of (idec_block sz gs) s <= 2 * (32 * 1024 * 1024) + (4 * (g_ecdh gs + g_row gs + g_clsag gs + g_mgsig gs) + 384) + rho_of sz gs * lenN s.
+Proof. intros sz gs s. split; [exact (peak_tx_all sz gs s)|exact (peak_block_all sz gs s)]. Qed.
+
+(* the prefix alone: no growing vector, no additive constant beyond the two reservations *)
+Theorem C04_alloc_peak_prefix : forall sz gs rho s,
+  8 <= rho /\ sz_txin sz <= 2 * rho /\ sz_txin sz + 4 * g_row gs <= 35 * rho /\ sz_txout sz <= 34 * rho /\
+  sz_bulletproof sz <= 290 * rho /\ sz_bpplus sz <= 194 * rho /\ sz_rangesig sz <= 6176 * rho /\ 4 * g_ecdh gs <= 8 * rho /\
+  4 * g_clsag gs <= 64 * rho /\ 4 * g_mgsig gs <= 32 * rho /\ 4 * g_row gs + 32 <= 32 * rho ->
+  peak_of (idec_prefix sz) s <= 2 * (32 * 1024 * 1024) + rho * lenN s.
+Proof. intros sz gs rho s H. exact (peak_prefix sz gs rho s H). Qed.
+
+(* the generic steps of the nesting argument.  `PK rho i C K cred` (Proofs/AllocPeak.v): from a state with credit C (live + C +
+   rho * |rest| <= B0) the decoder i never lets the live heap exceed B0 + K, and on success hands on the credit `cred a`.
+   A capped vector adds 32 MiB to the K of its element (the reservation is made before the elements are read and is paid by them
+   afterwards: every element leaves `size`); a growing vector adds 4 * esize (every element leaves 4 * esize). *)
+Theorem C04_alloc_peak_vec : forall rho A (d : idec A) K size ce C,
+  (forall C', PK rho d C' K (fun a => C' + size + ce a)) ->
+  PK rho (ivec size d) C (32 * 1024 * 1024 + K) (fun l => C + rho + lsum ce l).
+Proof. intros rho A d K size ce C H. exact (pk_vec rho d K size ce C H). Qed.
+
+Theorem C04_alloc_peak_grow : forall rho A (d : idec A) K esize ce n C,
+  (forall C', PK rho d C' K (fun a => C' + 4 * esize + ce a)) ->
+  PK rho (igrow esize n d) C (K + 4 * esize) (fun l => C + lsum ce l).
+Proof. intros rho A d K esize ce n C H. exact (pk_grow rho d K esize ce n C H). Qed.
+
+(* the real tables: rho = 33 (32 is NOT enough: EcdhInfo, 65 bytes per 8 wire bytes, 4 slots after the first push), additive
+   constant 2 * 32 MiB + 1316 bytes; observed by lib/props/c04.py on small inputs: 2 * 32 MiB + 1.4 kB (harness copies included) *)
+Example C04_ex_peak_default :
+  rho_of default_sizes default_gsizes = 33 /\
+  (forall s, peak_of (idec_tx default_sizes default_gsizes) s <= 67108864 + 1316 + 33 * lenN s) /\
+  (forall s, peak_of (idec_block default_sizes default_gsizes) s <= 67108864 + 1316 + 33 * lenN s) /\
+  ~ (8 <= 32 /\ sz_txin default_sizes <= 2 * 32 /\ sz_txin default_sizes + 4 * g_row default_gsizes <= 35 * 32 /\
+     sz_txout default_sizes <= 34 * 32 /\ sz_bulletproof default_sizes <= 290 * 32 /\ sz_bpplus default_sizes <= 194 * 32 /\
+     sz_rangesig default_sizes <= 6176 * 32 /\ 4 * g_ecdh default_gsizes <= 8 * 32 /\ 4 * g_clsag default_gsizes <= 64 * 32 /\
+     4 * g_mgsig default_gsizes <= 32 * 32 /\ 4 * g_row default_gsizes + 32 <= 32 * 32).
+Proof.
+  split; [exact (proj1 rho_default)|]. split; [|split; [|exact rho_32_not_ok]].
+  - intros s. pose proof (peak_tx_all default_sizes default_gsizes s) as H. rewrite (proj1 rho_default) in H. exact H.
+  - intros s. pose proof (peak_block_all default_sizes default_gsizes s) as H. rewrite (proj1 rho_default) in H. exact H.
+Qed.
+
+(* the multiple 2 of 32 MiB is reached: an 11-byte input (2^19 inputs declared, the first one a ToKey with 2^22 key offsets
+   declared, then end of input) fails with EOF while both reservations are live *)
+Example C04_ex_peak_two_level :
+  dec_tx default_sizes [x02; x00; x80; x80; x20; x02; x00; x80; x80; x80; x02] = (Err EEof, []) /\
+  peak_of (idec_tx default_sizes default_gsizes) [x02; x00; x80; x80; x20; x02; x00; x80; x80; x80; x02] = 2 * (32 * 1024 * 1024).
+Proof.
+  split; [rewrite <- (er_tx default_sizes default_gsizes _ (0, 0)); exact (proj1 two_level_peak)|exact (proj2 two_level_peak)].
+Qed.
+
+Check C04_alloc_peak_erasure : forall sz gs,
+  (forall s m, fst (idec_tx sz gs s m) = dec_tx sz s) /\ (forall s m, fst (idec_block sz gs s m) = dec_block sz s).
+Check C04_alloc_peak_tx : forall sz gs rho s,
+  8 <= rho /\ sz_txin sz <= 2 * rho /\ sz_txin sz + 4 * g_row gs <= 35 * rho /\ sz_txout sz <= 34 * rho /\
+  sz_bulletproof sz <= 290 * rho /\ sz_bpplus sz <= 194 * rho /\ sz_rangesig sz <= 6176 * rho /\ 4 * g_ecdh gs <= 8 * rho /\
+  4 * g_clsag gs <= 64 * rho /\ 4 * g_mgsig gs <= 32 * rho /\ 4 * g_row gs + 32 <= 32 * rho ->
+  peak_of (idec_tx sz gs) s <= 2 * (32 * 1024 * 1024) + (4 * (g_ecdh gs + g_row gs + g_clsag gs + g_mgsig gs) + 384) + rho * lenN s.
+Check C04_alloc_peak_block : forall sz gs rho s,
+  8 <= rho /\ sz_txin sz <= 2 * rho /\ sz_txin sz + 4 * g_row gs <= 35 * rho /\ sz_txout sz <= 34 * rho /\
+  sz_bulletproof sz <= 290 * rho /\ sz_bpplus sz <= 194 * rho /\ sz_rangesig sz <= 6176 * rho /\ 4 * g_ecdh gs <= 8 * rho /\
+  4 * g_clsag gs <= 64 * rho /\ 4 * g_mgsig gs <= 32 * rho /\ 4 * g_row gs + 32 <= 32 * rho ->
+  peak_of (idec_block sz gs) s <= 2 * (32 * 1024 * 1024) + (4 * (g_ecdh gs + g_row gs + g_clsag gs + g_mgsig gs) + 384) + rho * lenN s.
+Check C04_alloc_peak_all_tables : forall sz gs s,
+  peak_of (idec_tx sz gs) s <= 2 * (32 * 1024 * 1024) + (4 * (g_ecdh gs + g_row gs + g_clsag gs + g_mgsig gs) + 384) + rho_of sz gs * lenN s /\
+  peak_of (idec_block sz gs) s <= 2 * (32 * 1024 * 1024) + (4 * (g_ecdh gs + g_row gs + g_clsag gs + g_mgsig gs) + 384) + rho_of sz gs * lenN s.
+Check C04_alloc_peak_prefix : forall sz gs rho s,
+  8 <= rho /\ sz_txin sz <= 2 * rho /\ sz_txin sz + 4 * g_row gs <= 35 * rho /\ sz_txout sz <= 34 * rho /\
+  sz_bulletproof sz <= 290 * rho /\ sz_bpplus sz <= 194 * rho /\ sz_rangesig sz <= 6176 * rho /\ 4 * g_ecdh gs <= 8 * rho /\
+  4 * g_clsag gs <= 64 * rho /\ 4 * g_mgsig gs <= 32 * rho /\ 4 * g_row gs + 32 <= 32 * rho ->
+  peak_of (idec_prefix sz) s <= 2 * (32 * 1024 * 1024) + rho * lenN s.
+Check C04_alloc_peak_vec : forall rho A (d : idec A) K size ce C,
+  (forall C', PK rho d C' K (fun a => C' + size + ce a)) ->
+  PK rho (ivec size d) C (32 * 1024 * 1024 + K) (fun l => C + rho + lsum ce l).
+Check C04_alloc_peak_grow : forall rho A (d : idec A) K esize ce n C,
+  (forall C', PK rho d C' K (fun a => C' + 4 * esize + ce a)) ->
+  PK rho (igrow esize n d) C (K + 4 * esize) (fun l => C + lsum ce l).
+
+Print Assumptions C04_alloc_peak_erasure.
+Print Assumptions C04_alloc_peak_tx.
+Print Assumptions C04_alloc_peak_block.
+Print Assumptions C04_alloc_peak_all_tables.
+Print Assumptions C04_alloc_peak_prefix.
+Print Assumptions C04_alloc_peak_vec.
+Print Assumptions C04_alloc_peak_grow.
